@@ -21,7 +21,8 @@ import vlib
 
 def body(c):
     q = c.quick
-    tab = K.key_table(c.seed, internal=True)
+    # always a table with keys that are byte-prefixes of one another and contain 0x00 / 0xFF
+    tab = K.key_table(c.seed, internal=True, table=K.KEY_TABLES[[0, 2, 3][c.seed % 3]])
     kc = K.key_consts(tab)
     n = len(tab)
     internal = [i + 1 for i, k in enumerate(tab) if k.startswith(b"!badger!")][0]
@@ -50,6 +51,17 @@ def body(c):
     for conf in confs:
         K.replay(c, groups, conf, c.seed, "stores-4keys", keys=tab, mode="store", nproc=vlib.NCPU, collect=stats,
                  timeout=3000)
+    # pending writes of the reading transaction x reverse / forward Seek to exactly each key
+    # (the pendingWritesIterator is one more merge source)
+    pq = K.query_set(seeks=[0] + user[:4], sinces=[0], prefixes=[user[0]], keyiters=user[:2])
+    pcons = dict(kc, StoreKeys=K.tla_set(user[:3]), TsSet="1..2", Kinds='{"val", "del"}', MaxVersions="1",
+                 Contiguous="FALSE", ReadTs="2", Now="5", NSrc="6", NMixed="0", PendKeys=K.tla_set(user[:3]),
+                 PendKinds='{"val", "del"}', MaxPend="1" if q else "2", Queries=pq)
+    pgroups, pn = K.gen_store(c, "pending-x-seek", pcons, workers=8, timeout=3000)
+    pstats = {}
+    K.replay(c, pgroups, "managed+inmem", c.seed, "pending-x-seek", keys=tab, mode="store", nproc=min(vlib.NCPU, len(pgroups)),
+             collect=pstats, timeout=3000)
+    c.cov["pending_seek_cases"] = {"stores": len(pgroups), "store_x_pending": pn, "queries_run": pstats.get("query", 0)}
     c.cov["store_replay"] = stats
     for src in ("place.mt", "place.imm", "place.l0a", "place.l0b", "place.l1", "place.l2"):
         if stats.get(src, 0) == 0:
@@ -88,8 +100,8 @@ def body(c):
               "query": g["runs"][0]["q"][5]["o"], "predicted(k*1000+ts)": g["runs"][0]["q"][5]["r"]})
     for h in sims[:1]:
         c.sample(K.short(h))
-    c.assumptions += ["'all key sets' is covered through the concretisation tables only (4 tables of 7 keys + the reserved "
-                      "key, chosen by VERIF_SEED): prefix-related keys, 0x00 / 0xFF bytes",
+    c.assumptions += ["'all key sets' is covered through the concretisation tables only (3 tables of 7 keys + the reserved "
+                      "key, chosen by VERIF_SEED, all with keys that are byte-prefixes of one another and with 0x00 / 0xFF bytes)",
                       "reverse AllVersions yields the versions of a key oldest first (exact reverse of the forward "
                       "sequence): modelled as the code does it, the property text speaks of the forward order",
                       "a Seek key outside opt.Prefix is not generated (KVDefs!WellFormed)",
